@@ -440,6 +440,11 @@ def run(ctx):
     why = probe_eq_sym()
     if why:
         ctx.problem('oracle', why, inputs={'suite': 'eq_sym_probe'}, failing_input_found=True)
+    why = probe_from_dict()
+    ctx.suites['from_dict_history'] = {'cases': 4, 'failure': why}
+    ctx.evaluations += 4
+    if why:
+        ctx.problem('oracle', 'property fails on the implementation: ' + why, inputs={'suite': 'from_dict_probe'}, failing_input_found=True)
 
 
 def oracle_operands(rng, kept, limit):
@@ -522,6 +527,37 @@ def probe_eq_sym():
     return None
 
 
+def probe_from_dict():
+    """construction from a dict: the Signomial/Polynomial is the function the dict described WHEN it was built (the caller goes on using the
+    dict), and alpha, c and alpha_c describe the same function also when keys only coincide after rounding (repaired defect, /repo f80810a)"""
+    Signomial, ssm, Polynomial, spm = sigmod()
+    for cls, name in ((Signomial, 'Signomial'), (Polynomial, 'Polynomial')):
+        d = {(1, 0): 2.0, (0, 1): 3.0}
+        f = cls.from_dict(d)
+        g = cls.from_dict({(1, 0): 2.0, (0, 1): 3.0})
+        d[(2, 2)] = 5.0                 # the caller extends the dict to build the next function
+        d[(1, 0)] = 7.0
+        h = cls.from_dict(d)
+        ac = {tuple(float(t) for t in k): float(v) for k, v in f.alpha_c.items()}
+        if ac != {(1.0, 0.0): 2.0, (0.0, 1.0): 3.0}:
+            return '%s.from_dict(d) followed by changes to d: alpha_c is %r while (alpha, c) still describe 2*t0 + 3*t1' % (name, f.alpha_c)
+        if not (f == g) or not (g == f) or (f == h) or (h == f):
+            return ('%s.from_dict(d) followed by changes to d: f == g is %s / %s for the same function, f == h is %s / %s for different functions'
+                    % (name, f == g, g == f, f == h, h == f))
+        z = f - g
+        if [float(v) for v in np.asarray(z.c).ravel()] != [0.0] or len(z.alpha_c) != 1:
+            return '%s.from_dict(d) followed by changes to d: f - g has coefficients %s' % (name, np.asarray(z.c).tolist())
+    f2 = Signomial.from_dict({(1.0, 0.0): 1.0, (1.00000001, 0.0): 2.0})
+    if f2.m != len(f2.alpha_c) or abs(sum(float(v) for v in f2.alpha_c.values()) - 3.0) > 1e-12:
+        return ('Signomial.from_dict with two keys that coincide after rounding: alpha has %d row(s) with c = %s but alpha_c has %d entries %r'
+                % (f2.m, np.asarray(f2.c).tolist(), len(f2.alpha_c), f2.alpha_c))
+    f3 = Signomial.from_dict({(0.123456789,): 1.0, (1.0,): 2.0})
+    g3 = Signomial(np.array([[0.123456789], [1.0]]), np.array([1.0, 2.0]))
+    if not (f3 == g3 and g3 == f3):
+        return 'Signomial.from_dict({(0.123456789,): 1, (1,): 2}) == Signomial(alpha, c) with the same data is %s / %s' % (f3 == g3, g3 == f3)
+    return None
+
+
 def search(ctx):
     for _ in range(2500):
         n = ctx.rng.randint(1, 3)
@@ -552,6 +588,8 @@ def replay(payload):
         why = oracle_eq(tree_from_json(x['a']), tree_from_json(x['b']), x['n'], x['poly'])
     elif s == 'eq_sym_probe':
         why = probe_eq_sym()
+    elif s == 'from_dict_probe':
+        why = probe_from_dict()
     else:
         print('replay names a broken theorem/correspondence, no concrete input: ' + str(payload.get('detail'))[:500])
         return 1
